@@ -211,6 +211,32 @@ def parser_twin(prog, chk, C, J):
                'java/compoundData.java:%d' % jm[0]['ln'],
                'the formula scanners reject different inputs: error tests only in C %s, only in Java %s (C %s:%d)' % (
                    dict(a - b), dict(b - a), f['rel'], f['ln']), why='same %d counter / value tests lead to an error' % sum(a.values()))
+    # the character tests: verdict per (previous class, current class), evaluated on both syntax trees (xvlib/charclass.py)
+    from xvlib import charclass
+    from xvlib.twins import is_error_exit_c
+
+    def scan_table(fn, is_exit, strings):
+        body = fn['body'].get('c', [])
+        loops = [l for l in body if l.get('k') == 'ForStmt' and any(x.get('k') == 'DeclRefExpr' and x.get('name') == 'nbrackets' for x in walk(l.get('body') or {}))
+                 and not any(c_.get('callee') in ('bsearch', 'CompoundParserSimple', 'SymbolToAtomicNumber') for c_ in calls_in(l.get('body') or {}))]
+        if len(loops) != 1:
+            raise charclass.Unknown('scanning loop not found (%d candidates)' % len(loops))
+        lp = loops[0]
+        ivar = [x for x in walk(lp.get('inc') or {}) if x.get('k') == 'DeclRefExpr'][0]['name']
+        first = [s_ for s_ in body[:body.index(lp)] if s_.get('k') == 'IfStmt']
+        return charclass.table(first, lp['body'], charclass.Scanner(strings, ivar), is_exit)
+    try:
+        tc = scan_table(f, is_error_exit_c, {f['params'][0]['name']})
+        tj = scan_table(jm[0], Guards._java_exit, {'csa', jm[0]['params'][0]['name']})
+    except charclass.Unknown as ex:
+        chk.inconclusive('twin-parser', 'java/compoundData.java:%d' % jm[0]['ln'], str(ex))
+        return
+    diff = ['first %r: C %ss, Java %ss' % (charclass.REPR[k], tc['first'][k], tj['first'][k]) for k in charclass.CLASSES if tc['first'][k] != tj['first'][k]]
+    diff += ['%r after %r: C %ss, Java %ss' % (charclass.REPR[cu], charclass.REPR[pv], tc['pair'][(pv, cu)], tj['pair'][(pv, cu)])
+             for (pv, cu) in sorted(tc['pair']) if tc['pair'][(pv, cu)] != tj['pair'][(pv, cu)]]
+    chk.decide(not diff, 'twin-parser', 'java/compoundData.java', 'CompoundParserSimple', 'scanner-alphabet', 'java/compoundData.java:%d' % jm[0]['ln'],
+               'the two scanners give different verdicts for the same character classes: %s' % '; '.join(diff[:8]),
+               why='same verdict for all %d class pairs' % (len(tc['pair']) + len(tc['first'])))
 
 
 SEARCH_METHODS = ('indexOf', 'lastIndexOf', 'contains', 'remove')
